@@ -4,16 +4,21 @@ import (
 	"github.com/LemoFoundationLtd/lemochain-core/chain/deputynode"
 	"github.com/LemoFoundationLtd/lemochain-core/common"
 	"github.com/LemoFoundationLtd/lemochain-core/common/crypto"
+	"sync"
 )
 
 // cache confirm to save CPU. This confirm may not be used at last
 var sigCache struct {
-	Hash common.Hash
-	Sig  []byte
+	sync.Mutex // blocks are signed by miner, by block receiver and by the stable blocks confirm goroutine
+	Hash       common.Hash
+	Sig        []byte
 }
 
 // SignBlock sign a block hash by node key
 func SignBlock(blockHash common.Hash) ([]byte, error) {
+	sigCache.Lock()
+	defer sigCache.Unlock()
+
 	if sigCache.Hash == blockHash {
 		return sigCache.Sig, nil
 	}
